@@ -472,9 +472,8 @@ def spec_check(ops, g):
             return {'op_index': i, 'kind': 'died', 'what': 'output desynchronised', 'line': g[k - 1]}
         if o.get('ro') and c in (20, 21, 22):
             # a write through a collection opened read-only is refused (the mapping faults) and changes nothing
-            would = c == 20 or o['id'] in spec
-            # refused: by the faulting mapping (2) or, for an update that needs the file to grow, by the error of the growth (1)
-            if o['id'] not in ignore and (f[1] not in ((1, 2) if c == 21 else (2,)) if would else f[1] != 1):
+            # refused (code 9 after canonicalisation: fault or error) — never acknowledged
+            if o['id'] not in ignore and f[1] == 0:
                 return {'op_index': i, 'kind': {20: 'add', 21: 'update', 22: 'remove'}[c],
                         'what': 'a write through a collection opened read-only was answered %s (it must be refused and change nothing)' % f[1:], 'got': f}
             continue
